@@ -384,6 +384,8 @@ func registerEnv(e *Engine) {
 	registerJSON(e)
 	registerElection(e)
 	registerSkiplist(e)
+	registerBadger(e)
+	registerTiKV(e)
 	e.reg("time.Now", func(in *interp, fr *frame, a []value) value { return in.now() })
 	e.reg("time.Since", func(in *interp, fr *frame, a []value) value {
 		n := in.now().(structure)
